@@ -31,7 +31,15 @@ func vfDirected() map[string][][]byte {
 	shp := vfAt(vfAt(vfPad(nil, 112), 0, 0, 0, 0x27, 0x0A), 28, 0xE8, 0x03, 0, 0)
 	srt := func(l2 string) []byte { return []byte("1\n" + l2 + "\nHello\n\n2\n") }
 	marc := vfAt(vfAt(vfPad([]byte("00714cam a2200205 a "), 64), 20, '4', '5', '0', '0'), 40, 0x1E)
+	crx := func(pk, sig int, tail string) []byte {
+		h := []byte{'C', 'r', '2', '4', 2, 0, 0, 0, byte(pk), byte(pk >> 8), 0, 0, byte(sig), byte(sig >> 8), 0, 0}
+		return append(append(h, bytes.Repeat([]byte{'k'}, pk+sig)...), tail...)
+	}
 	m := map[string][][]byte{
+		"CRX": {
+			crx(10, 8, "PK\x03\x04rest"), crx(10, 8, "PK\x03\x04"), crx(10, 8, "PK\x03"), crx(10, 8, ""), crx(10, 8, "XK\x03\x04"), crx(0, 0, "PK\x03\x04"),
+			crx(40, 20, "PK\x03\x04 and the archive goes on"), crx(40, 20, "not a zip"),
+		},
 		"Marc": {
 			marc, vfAt(marc, 40, 0x1F), vfAt(marc, 0, '0', '0', '0', '2', '6'), vfAt(marc, 0, '9', '9', '9', '9', '9'), vfAt(marc, 4, 'x'), vfAt(marc, 23, '1'),
 			marc[:24], marc[:41], append(vfPad(marc[:24], 2047), 0x1E), append(vfPad(marc[:24], 2048), 0x1E),
